@@ -30,7 +30,17 @@ def build_case(seed, pid, i, tier):
     spec, meta = tree.gen_dup_tree(r, n_classes=n_classes, max_members=4, hostile_p=hostile,
                                    n_dirs=r.randrange(1, 6), extra_offsets=extra_off,
                                    min_len=0 if o["min0"] else 1, lens=lens,
-                                   roots=r.choice([1, 1, 2, 3]))
+                                   roots=r.choice([1, 1, 2, 3]), concat_collisions=0.3)
+    # overlapping / repeated / re-spelled roots on the command line (the scan must list every file once)
+    cmd_roots = list(spec["roots"])
+    if r.random() < 0.3:
+        rt = r.choice(spec["roots"])
+        cmd_roots.append(r.choice(["./" + rt, rt + "/", rt + "/../" + rt, rt]))
+    if r.random() < 0.2:
+        sub = [e["p"] for e in spec["entries"] if e["t"] == "d" and "/" in e["p"]]
+        if sub:
+            cmd_roots.append(r.choice(sub))
+    spec["cmd_roots"] = cmd_roots
     if o["min0"] and r.random() < 0.5:
         spec["entries"].append({"t": "f", "p": "r0/empty1", "fam": 1, "len": 0, "mtime": 500})
         spec["entries"].append({"t": "f", "p": "r0/empty2", "fam": 1, "len": 0, "mtime": 501})
@@ -56,8 +66,8 @@ def _run(seed, pid, i, o, spec, meta, scratch):
     troot = os.path.join(d, "t")
     home = os.path.join(d, "home")
     tree.materialise(spec, troot)
-    roots = spec["roots"]
-    roots_abs = [fse(os.path.join(troot, rt)) for rt in roots]
+    roots = spec.get("cmd_roots") or spec["roots"]
+    roots_abs = [fse(os.path.join(troot, rt)) for rt in spec["roots"]]
     # second monitor of C01 (read coverage): uncached, non-transform runs execute under the interposer
     trace = pid == "C01" and not o["cache"] and not o["transform"] and i % 2 == 0
     log = os.path.join(d, "shim.log")
